@@ -9,7 +9,7 @@
     permutation of the leaves of the sub-tree and of the ids it created, except the root label.  At top level
     this gives the static characterisation [wf_dend] of Proofs/HierarchyBase.v, hence [valid]. *)
 From Coq Require Import Permutation Lia QArith Lqa.
-From SKN Require Import Base.Util Model.Dendrogram Model.Cuts Model.Hierarchy Proofs.CutsProofs Proofs.HierarchyBase.
+From SKN Require Import Base.Util Model.Dendrogram Model.Cuts Model.Hierarchy Proofs.DendroBase Proofs.HierarchyBase.
 Set Warnings "-deprecated".
 
 (** a well-formed tree over the leaves 0..n-1: every list has >= 2 elements, each leaf exactly once, not a bare leaf *)
